@@ -202,6 +202,21 @@ impl ExpGuest for G {
     fn roster(n: u32) -> wit_bindgen::rt::Map<String, Vec<u8>> {
         (0..n).map(|i| (format!("k{i}"), vec![i as u8; (i % 4) as usize])).collect()
     }
+    // lists whose vectors have room to spare: what is handed over and what post-return frees must agree
+    fn spare(n: u32, extra: u32) -> Vec<u32> {
+        let mut v = Vec::with_capacity((n + extra) as usize);
+        v.extend((0..n).map(|i| i.wrapping_mul(2654435761)));
+        v
+    }
+    fn spare_strings(n: u32, extra: u32) -> Vec<String> {
+        let mut v = Vec::with_capacity((n + extra) as usize);
+        for i in 0..n {
+            let mut s = String::with_capacity((i + extra) as usize + 2);
+            s.push_str(&format!("s{i}"));
+            v.push(s);
+        }
+        v
+    }
     fn tally(m: wit_bindgen::rt::Map<u32, u64>) -> u64 {
         m.iter().fold(0u64, |a, (k, v)| a.wrapping_mul(31).wrapping_add(*k as u64).wrapping_add(*v))
     }
@@ -1008,7 +1023,7 @@ pub fn run_one(fam: &str, seed: u64, idx: u64, ch: Choices, trace: bool) -> RunR
     for _ in 0..nops {
         steps += 1;
         let nowned = st().owned.len();
-        let op = with(|h| h.ch.weighted(&[4, 2, if nowned > 0 { 3 } else { 0 }, if nowned > 1 { 3 } else { 0 }, if nowned > 0 { 2 } else { 0 }, 2, if nowned > 0 { 3 } else { 0 }, if nowned > 0 { 3 } else { 0 }, if nowned > 0 { 2 } else { 0 }, 2, if nowned > 0 { 2 } else { 0 }, 5, 2, 2, 1, if nowned > 0 { 2 } else { 0 }, if nowned > 0 { 1 } else { 0 }, 2, if st().tokens.is_empty() { 0 } else { 3 }, 2]));
+        let op = with(|h| h.ch.weighted(&[4, 2, if nowned > 0 { 3 } else { 0 }, if nowned > 1 { 3 } else { 0 }, if nowned > 0 { 2 } else { 0 }, 2, if nowned > 0 { 3 } else { 0 }, if nowned > 0 { 3 } else { 0 }, if nowned > 0 { 2 } else { 0 }, 2, if nowned > 0 { 2 } else { 0 }, 5, 2, 2, 1, if nowned > 0 { 2 } else { 0 }, if nowned > 0 { 1 } else { 0 }, 2, if st().tokens.is_empty() { 0 } else { 3 }, 2, 2]));
         match op {
             // constructor
             0 => {
@@ -1268,6 +1283,24 @@ pub fn run_one(fam: &str, seed: u64, idx: u64, ch: Choices, trace: bool) -> RunR
                     }
                 }
                 with(|h| h.fault("map_result_or_parameter"));
+            }
+            // list results whose vectors have spare capacity (len 0 with capacity > 0 included)
+            20 => {
+                let (n, extra) = (pick(5) as u32, pick(4) as u32);
+                if pick(2) == 0 {
+                    let r = call_export("spare", &[Val::U(n as u64), Val::U(extra as u64)]);
+                    let expect = Val::List((0..n).map(|i| Val::U(i.wrapping_mul(2654435761) as u64)).collect());
+                    if r.as_ref() != Some(&expect) {
+                        violate("H-VALUES", "spare", format!("spare({n},{extra}) returned {}", r.as_ref().map(short).unwrap_or_default()));
+                    }
+                } else {
+                    let r = call_export("spare-strings", &[Val::U(n as u64), Val::U(extra as u64)]);
+                    let expect = Val::List((0..n).map(|i| Val::Str(format!("s{i}"))).collect());
+                    if r.as_ref() != Some(&expect) {
+                        violate("H-VALUES", "spare-strings", format!("spare-strings({n},{extra}) returned {}", r.as_ref().map(short).unwrap_or_default()));
+                    }
+                }
+                with(|h| h.fault("list_result_with_spare_capacity"));
             }
             // exp3.make-token: a resource defined by an interface without functions
             17 => {
